@@ -399,3 +399,23 @@ PROPS["C19"] = simple(
                "baseline of the same tree; colour codes must be decimal triples <= 255. The colour converter is checked on its whole valid domain.",
     level_note="Trusted: the probe (veriftools/probe) and its phase list; the TOML generator's knowledge of which errors it planted. Very large positive preload/cache values make the UI slow rather than crash and are not generated (<= 10^4).",
 )
+
+PROPS["C01"] = simple(
+    "ui", "TestVerifC01", "exploration",
+    "four routes, every sink (Name, String, Preview, Markup.Render, creator/actor names, error items, UI frames): (1) 53 payload classes (ESC-CSI, cursor, SGR with parameters servitor never "
+    "emits, OSC+BEL, OSC+ST, DCS, charset, bare ESC, every C0 but newline/tab, DEL, C1 CSI/OSC/DCS/NEL and others) planted through JSON into 43 fields of posts, actors, activities and "
+    "collection items (titles, bodies in the four media types, timestamps, types, media types, URLs, link/attachment fields, author names and handles, HTML attribute values and tag names, "
+    "Markdown link text/code, gemtext links); (2) 16 character-reference forms (&#27;[2J, &#x1b;]0;x&#7;, &#155;, &#x9b;, &#8;, &#127;, &#0;, padded and semicolon-less forms) in the same places; "
+    "(3) the payloads plus raw 0x9B / high bytes inside 15 kinds of HTTP responses (status line, reason, Content-Type, Location, header names, non-JSON bodies, JSON keys) served by the simulator so "
+    "that the fetch fails with an error quoting them, rendered as error item and embedded as parent/author of another item; (4) every frame of UI sessions over worlds decorated with the "
+    "payloads, with a failing media hook whose output carries one. Widths from {1,2,5,8,20,80,200} and PRNG picks. Non-trivial: every case; routes 1-3 are enumerated (field x payload).",
+    variants=ui_variants([3]),
+    tools=["dumphook"],
+    floor=dict(evaluations=2000, distinct=2000, strings_scanned=15000, error_items_scanned=300, frames_scanned=500),
+    timeout=dict(quick=900, thorough=3000),
+    technique="runtime monitor: byte-level terminal tokenizer (printable | newline | SGR | forbidden) with taint parameters over every string destined for the terminal",
+    level_text="Every string the program would write to the terminal is run through a terminal state machine: any control character other than newline, any escape introducer that is not a complete "
+               "SGR sequence, any raw C1 byte, and any SGR parameter outside the set servitor itself emits (planted payloads use such parameters) is a violation. Fields x payloads are enumerated "
+               "for the three content routes; UI frames are sampled.",
+    level_note="Trusted: kit/term's tokenizer. servitor's own SGRs are accepted by syntax (ESC [ digits/semicolons m) and parameter family (0,1,3,4,9,38;2;r;g;b,48;2;r;g;b), not by a closed colour list.",
+)
